@@ -1488,7 +1488,51 @@ func genRender(r *hx.Run, rng *gen.Rng) error {
 		cases = append(cases, runCase{6, 4, &rnode{w: 6, h: 4, buf: fullBuf(0, 24), kids: []*rnode{big}}, []string{"run:big-surface"}})
 		cases = append(cases, runCase{6, 4, &rnode{w: 3, h: 2, buf: fullBuf(0, 6), kids: []*rnode{big}}, []string{"run:big-surface"}})
 	}
+	// the surface trees real widgets return for a screen-sized constraint (what App.layout hands to
+	// render), as the root surface of a frame
+	rw := rng.Fork(9)
+	nw := 160
+	if r.Thorough {
+		nw = 1500
+	}
+	realContents := []string{"hi", "hello world foo", "a\nb\nc", "世界你好", "x y z w v", "", "ab cd\nef"}
+	for i := 0; i < nw; i++ {
+		sw, sh := rw.Range(1, 10), rw.Range(1, 4)
+		var w *wspec
+		if rw.Chance(1, 3) {
+			w = mkDynamic(rw, 0)
+			for _, k := range w.kids {
+				for x := k; x != nil; x = x.child {
+					if x.kind == 'T' || x.kind == 'F' || x.kind == 'B' {
+						x.text = gen.Pick(rw, realContents)
+					}
+					if x.kind == 'R' {
+						x.segs = []seg{{tag: 3, text: gen.Pick(rw, realContents)}}
+					}
+				}
+			}
+		} else {
+			w = mkWidget(rw, gen.Pick(rw, shapes), gen.Pick(rw, realContents))
+		}
+		ctx := vxfw.DrawContext{Max: vxfw.Size{Width: uint16(sw), Height: uint16(sh)}, Characters: vaxis.Characters}
+		var sf vxfw.Surface
+		if p, _ := hx.Guard(func() { sf, _ = w.build().Draw(ctx) }); p {
+			r.Count("run:widget-tree,draw-panicked")
+			continue
+		}
+		cases = append(cases, runCase{sw, sh, surfaceToRnode(&sf, 0, 0, 0), []string{"run:widget-tree", "run:widget-tree:" + w.shape()}})
+	}
 	return emitRuns(r, cases)
+}
+
+// surfaceToRnode copies the surface tree a widget's Draw returned.
+func surfaceToRnode(s *vxfw.Surface, col, row, z int) *rnode {
+	n := &rnode{col: col, row: row, z: z, w: int(s.Size.Width), h: int(s.Size.Height), buf: append([]vaxis.Cell(nil), s.Buffer...)}
+	for i := range s.Children {
+		ch := &s.Children[i]
+		n.kids = append(n.kids, surfaceToRnode(&ch.Surface, ch.Origin.Col, ch.Origin.Row, ch.ZIndex))
+	}
+	return n
 }
 
 // ---------------------------------------------------------------------------------------------
@@ -1598,8 +1642,11 @@ var gidRev map[uint32]string
 func graphemeOf(id uint32) (string, bool) {
 	if gidRev == nil {
 		gidRev = map[uint32]string{0: ""}
-		for _, g := range []string{" ", "…", sentinelG, "m"} {
+		for _, g := range []string{" ", "…", sentinelG, "m", "▐", "世", "界", "你", "好", "é"} {
 			gidRev[gid(g)] = g
+		}
+		for k := 33; k < 127; k++ {
+			gidRev[gid(string(rune(k)))] = string(rune(k))
 		}
 		for k := 0; k < 400; k++ {
 			g := string(rune('a' + k))
@@ -1797,7 +1844,7 @@ func run(r *hx.Run) error {
 	r.Note("drawz", "list.Dynamic (fresh scroll state, DrawCursor on/off, Gap 0..2) with 0..9 items Text/RichText/TextField and the widgets a list cannot hold (Button, Center, Dynamic), also inside a Center, for Max in V x V and random small Max; the items Draw drew are recorded by wrapping the Builder's widgets; sizes and origins compared")
 	r.Note("draw", "13 widget shapes (T h/s, R h/s, F, B, Center nestings to depth 3) x Max in V x V, V={0,1,2,3,5,80,255,256,65534,65535}, x fixed contents (quick: 4-5 per constraint, thorough: all 11), plus random contents/constraints/nonzero Min; thorough adds a 65536-line text; lines from the real scanners; Center/Button with Max.W*Max.H > 2e6 (both bounded) skipped")
 	r.Note("render", "hand-built Surface trees on screens 1..6 x 1..4 painted through the hook that evaluates App.Run's render call: families (one 2x2 child at every offset with a 1x1 grandchild; two 2x1 children with z pairs; every root size 0..5 x 0..4 on a 4x3 screen with a child around the root's corners) and random trees (depth<=3, <=4 children, offsets [-2,parent+2], z in {-1,0,0,1,2}, ~3% malformed buffers); surfaces with more than 65535 cells")
-	r.Note("run", "the root-size family, random trees (60% with a root size different from the screen) and a >65535-cell surface as the root surface of one frame of the real App.Run on a fake console")
+	r.Note("run", "the root-size family, random trees (60% with a root size different from the screen) and a >65535-cell surface, and the surface trees real widgets (all six, nestings, Dynamic with its cursor surface) return for a screen-sized constraint, as the root surface of one frame of the real App.Run on a fake console")
 	r.Note("bare", "random trees through the bare recursive render (hook VerifC14Render)")
 	return nil
 }
